@@ -5,21 +5,24 @@ sys.path.insert(0, os.path.dirname(os.path.abspath(__file__)))
 from common import *
 
 
-def comp_write_after_read(sig, r, beh):
-    """KNOWN FINDING pattern: compressed (non-chunked) image written through an image id that has been read from"""
+def comp_mixed(sig, r, beh):
+    """KNOWN FINDING pattern: a compressed (non-chunked) image both written and read through one image id in one
+    session (either order)"""
     steps = beh["steps"]
     a = steps[0].get("args", {}) if steps and steps[0]["op"] == "Create" else {}
     ly = a.get("layout") or []
     if not ly or ly[0] != "comp":
         return None
-    seen = False
+    rd = wr = False
     for s in steps:
         if s["op"] == "Read":
-            seen = True
+            rd = True
+        elif s["op"] == "Write":
+            wr = True
         elif s["op"] == "Reopen":
-            seen = False
-        elif s["op"] == "Write" and seen:
-            return {"pattern": "compressed-image-written-after-read"}
+            rd = wr = False
+        if rd and wr:
+            return {"pattern": "compressed-image-read-and-written-in-one-session"}
     return None
 
 
@@ -31,7 +34,7 @@ def check(tier, replay):
               ("the same under RLE/deflate/skphuff compression, chunk shapes, chunked+compressed, int16/int32/float32", "Gen_GRImage.tla", "Gen_GRImage_layouts.cfg", "cover", {"sample": 15000}),
               ("simulate depth 12: images up to 4x3, 1-4 components, all storage configurations", "Gen_GRImage.tla", "Gen_GRImage_sim.cfg", "sim", {"num_quick": 100, "num": 3000, "depth": 13, "sample": 5000})],
         mutators={"Create", "Write", "ReqIl", "WriteLut", "Reopen"}, need_actions=["ReqIl", "ReadLut", "Info", "Reopen"],
-        tv_quick=8000, sig_fn=comp_write_after_read,
+        tv_quick=8000, sig_fn=comp_mixed,
         assumptions=["only rectangles and strides inside the image are generated (the property speaks of those)",
                      "GRwriteimage interprets the buffer in the interlace given to GRcreate; GRreadimage produces pixel interlace unless GRreqimageil asks otherwise; after a reopen the image is pixel-interlaced",
                      "compressed (non-chunked) images are written in full; images <= 4x3, <= 4 components: rows of 128+ bytes (old-style RLE raster coder limits) are not reached"])
